@@ -487,10 +487,13 @@ func bstLongUnit(c *core.Ctx, n int) {
 
 // ringLongUnit: a ring that wraps hundreds of times, read positionally after every step.
 func ringLongUnit(c *core.Ctx, n int) {
-	for _, capacity := range []int{1, 2, 7, 64, 65, 100, 1000} {
+	// (capacities beyond 1024 and 4096 as well: an implementation may size or grow its storage in steps; the Get every
+	// seventh Put moves the read position before the storage has been filled for the first time)
+	for _, capacity := range []int{1, 2, 7, 64, 65, 100, 1000, 1025, 1500, 4100} {
 		r := helper.NewRing[int](capacity)
 		var model []int
 		steps := int64(0)
+		n := max(n, 3*capacity+50)
 		for i := 0; i < n; i++ {
 			steps++
 			full := len(model) == capacity
@@ -575,7 +578,7 @@ func ringWrapUnit(c *core.Ctx, capacity int, n int64) {
 func init() {
 	core.Register(&core.Check{
 		ID:   "C17",
-		Rule: "explicit-state BFS over operation histories of the real Ring and Bst objects with deduplication on the deep dump of the concrete object (sound: deterministic objects with equal concrete state have equal futures); Ring to fixpoint for capacities 1..4 (5 thorough) over values {1,2,3}; Bst per element type over {min,-1,0,1,max} with multiset size bounded; after every transition every query is compared with the bounded-FIFO / multiset model; non-trivial = non-initial states; plus long deterministic histories: the tree driven as a sliding window (sizes 1, 2, 9, 70, 150, all) over staircases with duplicates, plateaus, a sawtooth, alternating growing pairs and a de Bruijn series of 1 200 (6 000) values in int, int64 and float64, and rings of capacity 1..1000 wrapping through 4 800 (24 000) puts, every query compared with the model after every step; rings of capacity 3, 4, 5, 7 through 2^16+64 (thorough: 2^32+64) puts, so that 16- and 32-bit positions or counts wrap, every Put compared with the model",
+		Rule: "explicit-state BFS over operation histories of the real Ring and Bst objects with deduplication on the deep dump of the concrete object (sound: deterministic objects with equal concrete state have equal futures); Ring to fixpoint for capacities 1..4 (5 thorough) over values {1,2,3}; Bst per element type over {min,-1,0,1,max} with multiset size bounded; after every transition every query is compared with the bounded-FIFO / multiset model; non-trivial = non-initial states; plus long deterministic histories: the tree driven as a sliding window (sizes 1, 2, 9, 70, 150, all) over staircases with duplicates, plateaus, a sawtooth, alternating growing pairs and a de Bruijn series of 1 200 (6 000) values in int, int64 and float64, and rings of capacity 1..4100 wrapping through at least 4 800 (24 000) puts with a Get every seventh Put, every query compared with the model after every step; rings of capacity 3, 4, 5, 7 through 2^16+64 (thorough: 2^32+64) puts, so that 16- and 32-bit positions or counts wrap, every Put compared with the model",
 		Assume: []string{"Ring values range over {1,2,3} (int elements); Bst values over five values per type including both extremes; multiset size <= 5 (quick) / 7 (thorough)",
 			"Put on a non-full ring and At beyond the current size are unconstrained by the property and not compared"},
 		Units: func(tier string) []core.Unit {
